@@ -83,6 +83,10 @@ pub fn compile(sc: &K16) -> KChild {
                 t_total += 12_000;
                 connects.push(KConnect { outcome: KOutcome::Refuse, segments: vec![], close_at_us: None, rst: false, eintr_reads: vec![] });
             }
+            KOutcome::Fail(e) => {
+                t_total += 12_000;
+                connects.push(KConnect { outcome: KOutcome::Fail(e), segments: vec![], close_at_us: None, rst: false, eintr_reads: vec![] });
+            }
             KOutcome::Timeout => {
                 t_total += 10_020_000;
                 connects.push(KConnect { outcome: KOutcome::Timeout, segments: vec![], close_at_us: None, rst: false, eintr_reads: vec![] });
@@ -123,7 +127,7 @@ pub fn compile(sc: &K16) -> KChild {
         }
         events.push(KEvent { at_us: t_end, ev: KEv::Key { code: "c:q".into(), ctrl: false, shift: false, alt: false } });
     }
-    KChild { rust_log: sc.rust_log.clone(), gpsd: None, ev_delay_us: vec![], connects, events, proc_delay_us: sc.proc_delay_us.clone(), coalesce: sc.coalesce.clone(), step_budget: 60_000 }
+    KChild { file_ops: vec![], rust_log: sc.rust_log.clone(), gpsd: None, ev_delay_us: vec![], connects, events, proc_delay_us: sc.proc_delay_us.clone(), coalesce: sc.coalesce.clone(), step_budget: 60_000 }
 }
 
 // ---------------------------------------------------------------------------- generation
@@ -365,8 +369,17 @@ pub fn generate(rng: &mut Rng, fault_free: bool) -> K16 {
         if retry || (!for_1090 && !fault_free && rng.chance(0.2)) {
             // server not (yet) up: refused / timed-out connects before this accept
             for _ in 0..rng.below(3) {
-                let o = if rng.chance(0.8) { KOutcome::Refuse } else { KOutcome::Timeout };
-                faults.push(if o == KOutcome::Refuse { "connect_refused".into() } else { "connect_timeout".into() });
+                let o = match rng.below(20) {
+                    0..=12 => KOutcome::Refuse,
+                    13..=15 => KOutcome::Timeout,
+                    // ENETUNREACH, EHOSTUNREACH, ENETDOWN, ECONNRESET, ECONNABORTED, EINTR, EACCES, EADDRNOTAVAIL
+                    _ => KOutcome::Fail(*rng.pick(&[101, 113, 100, 104, 103, 4, 13, 99])),
+                };
+                faults.push(match o {
+                    KOutcome::Refuse => "connect_refused".into(),
+                    KOutcome::Timeout => "connect_timeout".into(),
+                    _ => "connect_fails_otherwise".into(),
+                });
                 sessions.push(S16 { outcome: o, lines: vec![], splits: vec![], close: None, eintr_reads: vec![] });
             }
         }
@@ -817,7 +830,8 @@ pub fn execute(sc: &K16) -> Outcome {
 
 fn leak_fault_name(f: &str) -> &'static str {
     // fault names are a closed set; map to 'static for the counters
-    const NAMES: [&str; 31] = [
+    const NAMES: [&str; 32] = [
+        "connect_fails_otherwise",
         "diagnostics_switched_on",
         "quiet_longer_than_expiry_time",
         "malformed_line:at_prefixed_short",
